@@ -26,6 +26,8 @@ pub struct NetPlan {
     pub join: Join,
     /// dead addresses mixed into every bootstrap list
     pub dead_bootstrap: usize,
+    /// entries that do not resolve to an IPv4 socket address at all, mixed into the lists
+    pub junk_bootstrap: bool,
     /// later joiners also list an earlier node besides the first one
     pub extra_bootstrap: bool,
     pub skew: bool,
@@ -57,6 +59,7 @@ pub fn random_plan(rng: &mut Rng, max_servers: usize, max_clients: usize) -> Net
             _ => Join::Simultaneous,
         },
         dead_bootstrap: if rng.chance(1, 4) { rng.usize(1, 3) } else { 0 },
+        junk_bootstrap: rng.chance(1, 5),
         extra_bootstrap: rng.chance(1, 3),
         skew: rng.chance(1, 4),
     }
@@ -110,6 +113,14 @@ pub fn build(sim: &Sim, rng: &mut Rng, plan: &NetPlan) -> Net {
             }
             for d in &dead {
                 b.insert(rng.usize(0, b.len()), d.to_string());
+            }
+            if plan.junk_bootstrap {
+                // resolved without any DNS traffic: a parse error, a missing port, an IPv6 literal
+                for j in ["not a socket address", "10.9.9.9", "[::1]:6881", ""] {
+                    if rng.chance(1, 2) {
+                        b.insert(rng.usize(0, b.len()), j.to_string());
+                    }
+                }
             }
             spec.bootstrap = b;
         }
